@@ -519,7 +519,7 @@ func record(c *kit.Case, src []byte) {
 }
 
 func TestCursor(t *testing.T) {
-	kit.Rapid(t, "cursor", 500000, 5000000, func(t *rapid.T) {
+	kit.Rapid(t, "cursor", 500000, 20000000, func(t *rapid.T) {
 		src := drawSrc(t, kit.Pick(12, 40))
 		c := kit.NewCase("cursor", "").B("src", src)
 		if rapid.Bool().Draw(t, "block") {
@@ -537,7 +537,7 @@ func TestCursor(t *testing.T) {
 }
 
 func TestSegment(t *testing.T) {
-	kit.Rapid(t, "segment", 50000, 500000, func(t *rapid.T) {
+	kit.Rapid(t, "segment", 50000, 2000000, func(t *rapid.T) {
 		src := drawSrc(t, 12)
 		a := rapid.IntRange(0, len(src)).Draw(t, "a")
 		b := rapid.IntRange(a, len(src)).Draw(t, "b")
